@@ -69,7 +69,8 @@ def r02_8(ctx: Ctx) -> None:
                 n += 1
                 ctx.violation("R02.8", short, "writes " + tgt, st.where, f"{short} (text pipeline of a cell) writes shared state {tgt}: `{st.text()}`; a cell's text can depend on other cells rendered before it")
         for d in fi.decorators:
-            if d.split(".")[-1] in ("lru_cache", "cache"):
+            from ..effects import memo_is_pure
+            if d.split(".")[-1] in ("lru_cache", "cache") and not memo_is_pure(pm, fi)[0]:
                 ctx.violation("R02.8", short, "memoised " + d, fi.where(), f"{short} is memoised; unless every input (text, flag) is in the key, one cell's result is served for another")
     ctx.instance("R02.8", pm.func("TextContent._as_rtf").where(), f"{len(reach)} functions of the per-cell text pipeline write no shared state and are not memoised")
     tc = pm.func("TextContent._convert_special_chars")
@@ -95,7 +96,7 @@ def check(ctx: Ctx) -> None:
     T.cursor_render_body(ctx, "R02.1")
     from .c04 import r04_1, r04_5
     r04_5(ctx)
-    r04_1(ctx)
+    r04_1(ctx, mode="assign")     # every row gets exactly one, monotone page number; where breaks fall is C04's subject
     T.encode_index_agreement(ctx, "R02.4")
     T.column_removal(ctx, "R02.5")
     from .c05 import r05_2, r05_7
